@@ -231,6 +231,8 @@ class Extraction:
                     walk(c, p)
 
         walk(mod, "m")
+        ex_ = mod.attrs.get("exports")
+        self.last_exports = [x if isinstance(x, str) else it._str(x) for x in ex_] if isinstance(ex_, list) else ex_
         return got, list(self.events)
 
 
@@ -327,6 +329,10 @@ def corpus(thorough: bool) -> list[tuple[str, str]]:
     for tail_kw, opener in (("else", "if cond:"), ("except ImportError", "try:"), ("finally", "try:")):
         out.append((f"module|string opening the {tail_kw.split()[0]} block after an assignment",
                     '"""Module doc."""\nfrom typing import TYPE_CHECKING\n' + f'{opener}\n    x = 1\n{tail_kw}:\n    """Not about x."""\n    y = 2\n'))
+    # __all__ assigned twice: the exports are those of the assignment that survives as the `__all__` member
+    for second_ctx in ("top level", "if body", "else branch", "except handler", "try body"):
+        second = CONTEXTS[second_ctx].format(body='__all__ = ["a", "b"]', ind=_indent('__all__ = ["a", "b"]', 4), ind2="")
+        out.append((f"twice|__all__ then __all__ ({second_ctx})", '"""Module doc."""\nfrom typing import TYPE_CHECKING\n__all__ = ["a"]\na = b = 1\n' + second + "\n"))
     # a documented, annotated name re-assigned together with a new name: the new name starts without docstring and annotation
     for d1 in ("assignment", "annotated assignment"):
         out.append((f"twice|{d1} then chained assignment (top level)", '"""Module doc."""\nfrom typing import TYPE_CHECKING\n' + DEFS[d1].format(n="x") + "\n" + DEFS["chained assignment"].format(n="x") + "\n"))
